@@ -544,12 +544,12 @@ func diffKind(k string) string {
 // metricsdata.metricReader.readSeriesData; everything else is classified by what differs and where the data lived.
 func (r *runner) classify(q *node.Query, st storageState, diffs []node.Diff, fields []string) string {
 	const (
-		clsWindow = "C11/memdb/window-end-offset-shrinks-on-out-of-order-write-inside-the-window"
-		clsPlaces = "C11/downsampling/values-of-one-slot-in-several-places-combined-by-the-query-function"
+		clsWindow   = "C11/memdb/window-end-offset-shrinks-on-out-of-order-write-inside-the-window"
+		clsPlaces   = "C11/downsampling/values-of-one-slot-in-several-places-combined-by-the-query-function"
 		clsFamDrop  = "C11/family/memdb-results-dropped-when-no-table-file-matches-field-or-series"
 		clsFileDrop = "C11/family/table-file-results-dropped-when-memdb-does-not-know-the-field"
-		clsTwoAgg = "C11/field-agg/two-aggregate-types-of-one-field-cross-applied-at-merge"
-		clsReader = "C11/reader/single-field-block-mapped-to-first-query-field"
+		clsTwoAgg   = "C11/field-agg/two-aggregate-types-of-one-field-cross-applied-at-merge"
+		clsReader   = "C11/reader/single-field-block-mapped-to-first-query-field"
 	)
 	type variation struct {
 		w, p, d, f bool
